@@ -80,6 +80,11 @@ func (o *UntypedRequestBinder) Bind(request *http.Request, routeParams RoutePara
 			result = append(result, errors.New(http.StatusInternalServerError, "parameter name %q is an unknown field", binder.Name))
 			continue
 		}
+		if !isMap && !target.CanInterface() {
+			// an unexported field can neither be set nor handed to the validators
+			result = append(result, errors.New(http.StatusInternalServerError, "parameter name %q is an unexported field", binder.Name))
+			continue
+		}
 
 		if err := binder.Bind(request, routeParams, consumer, target); err != nil {
 			result = append(result, err)
